@@ -86,6 +86,29 @@ theorem definition_resolution_agrees (B D : List Str) (u : List Comp)
   rw [List.foldl_append, h1, urlTrav_eq B.reverse u _ hst hroot']
   simp
 
+/-- **the link iwe writes opens the note it was written for**: for every note key `K` and every
+directory `D` (given by their component names), the relative link `relative D K` that iwe writes into a
+note of directory `D` (C15) is answered by go-to-definition with the URI whose path is the base's
+segments followed by the components of `K` — the file of that note, never another one -/
+theorem written_link_opens_the_note (B D K : List Str) :
+    urlResolve B (D.map Comp.normal ++ relative (D.map Comp.normal) (K.map Comp.normal)) = B ++ K := by
+  obtain ⟨P, D', K', hD, hK, hrel⟩ := relative_normals D K
+  have hjoin : joinNormalized (D.map Comp.normal) (relative (D.map Comp.normal) (K.map Comp.normal))
+      = K.map Comp.normal := by
+    rw [hrel, hD, hK]
+    exact joinNormalized_relative P D' K'
+  have hroot : Comp.parent ∉ joinNormalized (D.map Comp.normal) (relative (D.map Comp.normal) (K.map Comp.normal)) := by
+    rw [hjoin]
+    intro h
+    obtain ⟨n, _, hn⟩ := List.mem_map.1 h
+    cases hn
+  have hid : ∀ L : List Str, (L.map Comp.normal).map compStr = L := by
+    intro L
+    induction L with
+    | nil => rfl
+    | cons k ks ih => simp only [List.map_cons, compStr, ih]
+  rw [definition_resolution_agrees B D _ hroot, hjoin, hid]
+
 /-- above the library root the two part ways (finding D15's neighbourhood): link resolution keeps the
 `..`, the URL stays at the root of the file system -/
 theorem definition_above_root_counterexample :
